@@ -25,7 +25,7 @@ C13_VERDICTS = {"depends_on_history", "mode_changed", "frozen_statistics_written
 def run_sessions(run, verdicts, thorough, n_random, rand_len, cover=True, max_cover_steps=None, seeds=(0,), patterns=()):
     res, g = S.session_graph(view=True)
     run.model_must_hold(res, "Session")
-    run.add_tlc(res, "Session (all model kinds)", require_actions=["Call", "Train", "Eval", "Freeze", "TrainStep", "SaveLoadFresh"])
+    run.add_tlc(res, "Session (all model kinds)", require_actions=["Call", "Train", "Eval", "Freeze", "TrainStep", "SaveLoadFresh", "Clone"])
     nproc = min(16, os.cpu_count() or 4)
     rnd = random.Random(run.seed)
     kinds = pmap(S.kinds_task, [0, 0], nproc=2)[0]
@@ -61,6 +61,11 @@ def run_sessions(run, verdicts, thorough, n_random, rand_len, cover=True, max_co
         run.sample({"model": traces[-1]["name"], "events": traces[-1]["ev"][:6]})
     seen = set()
     for t, idx, verdict in bad:
+        if verdict.startswith("clone_"):
+            # copying a model is behaviour the specification covers but no listed property speaks about:
+            # a mismatch is reported as drift, never as a violation
+            run.note_drift("%s: %s after %s" % (t["name"], verdict, t["ev"][idx].get("how")))
+            continue
         if verdict not in verdicts:
             continue
         ev = t["ev"][idx]
